@@ -166,13 +166,35 @@ def cmp_param(p1, p2, rng):
 def _matrix_at(M, assign):
     if assign:
         M = M.xreplace(assign)
-    return np.array([[complex(sympy.N(e, 20)) for e in row] for row in M.tolist()], dtype=complex)
+    out = np.empty(M.shape, dtype=complex)
+    for i in range(M.shape[0]):
+        for j in range(M.shape[1]):
+            e = M[i, j]
+            out[i, j] = complex(e) if e.is_Number else complex(sympy.N(e, 20))
+    return out
 
 
-def cmp_matrix(M1, M2, rng, what):
+def _param_scale(params):
+    """largest magnitude of a number occurring in the parameters (a relative 1e-12 deviation of an
+    angle p moves matrix entries by up to |p| * 1e-12)"""
+    m = 1.0
+    for p in params:
+        try:
+            if GS.is_python_number(p):
+                m = max(m, abs(p))
+            elif isinstance(p, sympy.Basic):
+                m = max([m] + [abs(complex(f)) for f in p.atoms(sympy.Number)])
+        except Exception:
+            pass
+    return m
+
+
+def cmp_matrix(M1, M2, rng, what, scale=1.0):
     """element-wise comparison of two sympy matrices by numeric sampling"""
     if tuple(M1.shape) != tuple(M2.shape):
         return f"{what}: shape {M1.shape} -> {M2.shape}"
+    if sympy.ImmutableMatrix(M1) == sympy.ImmutableMatrix(M2):
+        return None  # identical expression trees: equal for every assignment
     s1 = M1.atoms(sympy.Symbol)
     s2 = M2.atoms(sympy.Symbol)
     if s1 != s2:
@@ -180,12 +202,27 @@ def cmp_matrix(M1, M2, rng, what):
     for a in (_assignments(s1, rng) if s1 else [None]):
         A, B = _matrix_at(M1, a), _matrix_at(M2, a)
         d = L.maxdiff(A, B)
-        if not d <= 1e-12 * max(1.0, float(np.abs(A).max())):
+        if not d <= 1e-12 * max(1.0, float(np.abs(A).max())) * scale:
             return f"{what}: matrices differ by {d:.3g} at {a}"
     return None
 
 
+_DEF_CACHE = {}
+
+
 def cmp_def(d1, d2, rng):
+    key = (id(d1), id(d2))
+    hit = _DEF_CACHE.get(key)
+    if hit is not None and hit[0] is d1 and hit[1] is d2:
+        return hit[2]
+    why = _cmp_def(d1, d2, rng)
+    if len(_DEF_CACHE) > 500:
+        _DEF_CACHE.clear()
+    _DEF_CACHE[key] = (d1, d2, why)
+    return why
+
+
+def _cmp_def(d1, d2, rng):
     if type(d1) is not type(d2):
         return f"definition type {type(d1).__name__} -> {type(d2).__name__}"
     if d1.gate_name != d2.gate_name:
@@ -244,10 +281,13 @@ def cmp_gate(g1, g2, rng, out):
 
 def _text_tokens(p, names):
     """identifiers that str(p) prints for things that are NOT symbols"""
+    if isinstance(p, complex) and p.imag != 0:
+        return {"I"}  # a complex literal is printed as 3j and parsed as 3*I
     if not isinstance(p, sympy.Basic):
         return set()
-    q = p.xreplace({s: sympy.Symbol("ZZZZ") for s in p.atoms(sympy.Symbol)})
-    return set(re.findall(r"[A-Za-z_][A-Za-z_0-9]*", str(q))) - {"ZZZZ"}
+    syms = sorted(p.atoms(sympy.Symbol), key=lambda s: s.name)
+    q = p.xreplace({s: sympy.Symbol(f"ZZZZ{i}") for i, s in enumerate(syms)})
+    return {t for t in re.findall(r"[A-Za-z_][A-Za-z_0-9]*", str(q)) if not t.startswith("ZZZZ")}
 
 
 def k3_mechanisms(base, params=None, names=None):
@@ -276,6 +316,8 @@ def k3_mechanisms(base, params=None, names=None):
 
 def _k3_predicted(p1, names):
     """value K3(c) predicts for a parameter: sympy constants replaced by the like-named symbol"""
+    if isinstance(p1, complex) and "I" in names:
+        return sympy.sympify(p1.real) + sympy.sympify(p1.imag) * sympy.Symbol("I")
     if not isinstance(p1, sympy.Basic):
         return p1
     rep = {}
@@ -400,7 +442,7 @@ def consequences(mon, orig, img, rng, found):
             bad = f"op {i}: matrix of the image of {b1} raised {e!r}"
             break
         n_eval += 1
-        bad = cmp_matrix(M1, M2, rng, f"op {i} ({b1})")
+        bad = cmp_matrix(M1, M2, rng, f"op {i} ({b1})", _param_scale(b1.params))
         if bad:
             break
         cheap = all(m[0] in ("C", "D") or (m[0] == "P" and isinstance(m[1], int) and abs(m[1]) <= 3) for m in m1)
@@ -415,7 +457,7 @@ def consequences(mon, orig, img, rng, found):
             except Exception as e:
                 bad = f"op {i}: whole matrix of the image of {o1.gate} raised {e!r}"
                 break
-            bad = cmp_matrix(W1, W2, rng, f"op {i} whole gate ({o1.gate})")
+            bad = cmp_matrix(W1, W2, rng, f"op {i} whole gate ({o1.gate})", _param_scale(b1.params))
             if bad:
                 break
             mon.note("whole-gate matrices compared")
@@ -557,6 +599,12 @@ def _post_to_dict(mon, call):
                               f"serialise to the same text ({f[0][1]})")
                 break
     _register(text, obj)
+    if isinstance(obj, list) and isinstance(dicts, list) and len(dicts) == len(circuits):
+        for c, d in zip(circuits, dicts):
+            try:
+                _register(_canon(d), c)
+            except Exception:
+                pass
 
 
 def _classify_exception(orig_circuits, exc):
